@@ -227,7 +227,8 @@ pub fn run_check(
     let known = load_known();
     let mut unlisted = 0u64;
     let mut known_hits = vec![];
-    let replay_dir = format!("{VERIF_ROOT}/replays");
+    let out_root = std::env::var("VERIF_OUT_DIR").unwrap_or_else(|_| VERIF_ROOT.to_string());
+    let replay_dir = format!("{out_root}/replays");
     let _ = std::fs::create_dir_all(&replay_dir);
     let mut reported = std::collections::HashSet::new();
     for f in &outcome.findings {
@@ -276,7 +277,7 @@ pub fn run_check(
         "wall_s": (ctx.elapsed() * 1000.0).round() / 1000.0,
         "violations": unlisted,
     });
-    let evdir = format!("{VERIF_ROOT}/evidence");
+    let evdir = format!("{out_root}/evidence");
     let _ = std::fs::create_dir_all(&evdir);
     let evpath = format!("{evdir}/{property}.json");
     if let Err(e) = std::fs::write(&evpath, serde_json::to_string_pretty(&ev).unwrap() + "\n") {
